@@ -99,6 +99,8 @@ def s_norm(ch, T):
 
 @spec("cholesky", "L")
 def s_cholesky(ch, T):
+    if T.cplx:
+        return None      # complex Hermitian / general input: the chosen observables are not gauge invariant there (see DESIGN)
     batch = ch.choose("batch", BATCH)
     n = ch.choose("n", [1, 2, 3])
     # the result depends on the lower triangle only; differentiate through symmetrisation so the Jacobian is well defined
@@ -112,6 +114,8 @@ def s_cholesky(ch, T):
 
 @spec("eigh", "L")
 def s_eigh(ch, T):
+    if T.cplx:
+        return None      # complex Hermitian / general input: the chosen observables are not gauge invariant there (see DESIGN)
     batch = ch.choose("batch", BATCH)
     n = ch.choose("n", [1, 2, 3])
     uplo = ch.choose("UPLO", [None, "L", "U"])
@@ -128,6 +132,8 @@ def s_eigh(ch, T):
 
 @spec("eig", "L")
 def s_eig(ch, T):
+    if T.cplx:
+        return None      # complex Hermitian / general input: the chosen observables are not gauge invariant there (see DESIGN)
     batch = ch.choose("batch", BATCH[:2])
     n = ch.choose("n", [1, 2, 3])
     obs = ch.choose("observable", ["trace_exp", "sum_real_w2"])
@@ -141,6 +147,8 @@ def s_eig(ch, T):
 
 @spec("svd", "L")
 def s_svd(ch, T):
+    if T.cplx:
+        return None      # complex Hermitian / general input: the chosen observables are not gauge invariant there (see DESIGN)
     batch = ch.choose("batch", BATCH[:2])
     n, m = ch.choose("shape", [(2, 2), (2, 3), (3, 2), (1, 2), (3, 3), (1, 1), (2, 1)])
     mode = ch.choose("mode", ["s-only", "usv-reconstruct", "usv-proj", "full-matrices", "s-default-full"])
